@@ -73,4 +73,37 @@ theorem trainWitness_rows_materialised :
   simp only [trainRowsMaterialised, Screen.subsetObserved, Screen.viewToScreen, mk?_eqK]
   decide
 
+/-! ### regression witness for seeded change S8-C03: the hold-out drawn BEFORE a smoother that drops a sample, the smoother applied
+    to the training half only (`subset(...).to_screen()` re-encodes it) -/
+
+/-- the held-out half of `trainWitness` for the selection "row 2": sample `s7` keeps the parent's id 1 -/
+def splitWitnessTest : Screen :=
+  { ctrl := [99], arity := 2, tnames := [[[116, 55], [116, 53]]], tdoses := [[1, 1]], snames := [[115, 55]], pnames := [[112, 55]],
+    obs := [3], mask := [true], tids := [[3, 2]], sids := [1], pids := [0],
+    tmap := [([116, 49], 1, 0), ([116, 51], 1, 1), ([116, 53], 1, 2), ([116, 55], 1, 3)],
+    smap := [([115, 49], 0), ([115, 55], 1)], pmap := [([112, 55], 0)] }
+
+/-- the training half: rows 0 and 1, the parent's mappings -/
+def splitWitnessKeep : Screen :=
+  { ctrl := [99], arity := 2, tnames := [[[116, 49], [116, 51]], [[116, 53], [116, 55]]], tdoses := [[1, 1], [1, 1]],
+    snames := [[115, 49], [115, 55]], pnames := [[112, 49], [112, 55]], obs := [1, 2], mask := [false, true],
+    tids := [[0, 1], [2, 3]], sids := [0, 1], pids := [0, 1],
+    tmap := [([116, 49], 1, 0), ([116, 51], 1, 1), ([116, 53], 1, 2), ([116, 55], 1, 3)],
+    smap := [([115, 49], 0), ([115, 55], 1)], pmap := [([112, 49], 0), ([112, 55], 1)] }
+
+/-- the training half after a smoother dropped the one-plate sample `s1` through `subset(...).to_screen()`: re-encoded -/
+def splitWitnessKeepSmoothed : Screen :=
+  { ctrl := [99], arity := 2, tnames := [[[116, 53], [116, 55]]], tdoses := [[1, 1]], snames := [[115, 55]], pnames := [[112, 55]],
+    obs := [2], mask := [true], tids := [[0, 1]], sids := [0], pids := [0],
+    tmap := [([116, 53], 1, 0), ([116, 55], 1, 1)], smap := [([115, 55], 0)], pmap := [([112, 55], 0)] }
+
+theorem splitWitness_holdout : Batchie.Retro.holdout trainWitness [false, false, true] = .ok (splitWitnessKeep, splitWitnessTest) := by
+  simp only [Batchie.Retro.holdout, Batchie.Retro.holdoutKeep, Batchie.Retro.holdoutTest, mk?_eqK]
+  decide
+
+theorem splitWitness_smooth_training_only :
+    splitWitnessKeep.viewToScreen { parent := 0, sel := [false, true] } = .ok splitWitnessKeepSmoothed := by
+  simp only [Screen.viewToScreen, mk?_eqK]
+  decide
+
 end Batchie.Lifecycle
